@@ -1,5 +1,6 @@
 //! pdbverif: drives the real parity-db and emits protocol traces for the Lean model driver,
 //! plus independent oracle checks.  One sub-command per model slice.
+mod c06;
 mod c08;
 mod c13;
 mod c16;
@@ -22,6 +23,7 @@ fn dispatch(cmd: &str) -> Option<RunFn> {
 		"c08" => c08::run,
 		"c16" => c16::run,
 		"c13" => c13::run,
+		"c06" => c06::run,
 		_ => return None,
 	})
 }
